@@ -471,25 +471,48 @@ def recognise_fold(ctx, f: Func, store_stmt: ast.stmt, value: ast.AST) -> Fold:
             if m:
                 fo.defs.append(d.node)
                 continue
-            # plain `acc = T` : first element (under `acc is None`) or comparison form (under T > acc / T < acc)
+            # plain `acc = T` : first element (under `acc is None`) or comparison form (under T > acc / T < acc),
+            # or both at once (`if acc is None or T < acc`)
             own = [(t, p) for t, p in conds if cfg.can_reach(cfg.node_containing(t) or hdr, hdr) and
                    cfg.dominates(hdr, cfg.node_containing(t) or hdr)]
-            kind = None
-            for t, p in own:
+
+            def classify(t, p):
                 nt = none_test(t, p)
                 if nt and isinstance(nt[0], ast.Name) and nt[0].id == acc and nt[1]:
-                    kind = 'first'
+                    return {'first'}
+                if isinstance(t, ast.UnaryOp) and isinstance(t.op, ast.Not):
+                    return classify(t.operand, not p)
+                if isinstance(t, ast.BoolOp) and ((isinstance(t.op, ast.Or) and p) or (isinstance(t.op, ast.And) and not p)):
+                    ks = set()
+                    for v in t.values:
+                        k = classify(v, p)
+                        if not k:
+                            return set()
+                        ks |= k
+                    return ks
                 if isinstance(t, ast.Compare) and len(t.ops) == 1:
-                    l, r = ex.expand(t.left, cfg.node_containing(t), stop={acc}), \
-                        ex.expand(t.comparators[0], cfg.node_containing(t), stop={acc})
+                    tn = cfg.node_containing(t)
+                    l, r = ex.expand(t.left, tn, stop={acc}), ex.expand(t.comparators[0], tn, stop={acc})
                     o = _CMP.get(type(t.ops[0]))
                     if o in ('>', '>=', '<', '<='):
                         if not p:
                             o = {'>': '<=', '>=': '<', '<': '>=', '<=': '>'}[o]
                         if isinstance(r, ast.Name) and r.id == acc and same(l, val):
-                            kind = 'max' if o in ('>', '>=') else 'min'
-                        elif isinstance(l, ast.Name) and l.id == acc and same(r, val):
-                            kind = 'min' if o in ('>', '>=') else 'max'
+                            return {'max' if o in ('>', '>=') else 'min'}
+                        if isinstance(l, ast.Name) and l.id == acc and same(r, val):
+                            return {'min' if o in ('>', '>=') else 'max'}
+                return set()
+
+            kinds = set()
+            for t, p in own:
+                kinds |= classify(t, p)
+            ops = kinds & {'max', 'min'}
+            if len(ops) == 1:
+                kind = next(iter(ops))
+            elif not ops and 'first' in kinds:
+                kind = 'first'
+            else:
+                kind = None
             if kind == 'first':
                 if fo.term is not None and not same(fo.term, val):
                     raise Unknown(d.stmt, "first-element term differs from the folded term")
